@@ -286,10 +286,17 @@ func (m *Model) ruleREADCAS(r *Results) {
 			}
 		}
 		if len(c.edges) == 0 {
-			r.undecided(rule, m.declName(fn)+" / returns the row's CAS whenever a row was read", m.instrPos(sc.Call), "the scan's error is not tested right after the scan")
-			continue
+			// the scan's error is handed straight to the caller together with the row (`err = scan(..);
+			// return r, err`): every return behind the scan is then "after a successful scan" as well
+			if _, isRet := blk.Instrs[len(blk.Instrs)-1].(*ssa.Return); !isRet {
+				r.undecided(rule, m.declName(fn)+" / returns the row's CAS whenever a row was read", m.instrPos(sc.Call), "the scan's error is not tested right after the scan")
+				continue
+			}
 		}
 		reach := reachableFromSuccs(blk, c)
+		if _, isRet := blk.Instrs[len(blk.Instrs)-1].(*ssa.Return); isRet {
+			reach[blk.Index] = true
+		}
 		n++
 		bad := ""
 		for _, ret := range returnsOf(fn) {
@@ -792,6 +799,17 @@ func (m *Model) ruleMEMURL(r *Results) {
 		c := newCut()
 		for _, d := range m.decisions(g, topFrame(g)) {
 			cd := d.C
+			// a predicate helper (`isMemoryMode(u)`), possibly kept in a local first
+			if cd.Op == token.ILLEGAL && cd.X != nil {
+				rv, _ := m.resolve(cd.X, topFrame(g))
+				if call, ok := stripConv(rv).(*ssa.Call); ok {
+					if pol := m.modePredicate(call.Common().StaticCallee()); pol != 0 {
+						// pol=+1: true means "memory"
+						d.cutSucc(c, cd.succWhen(pol != 1))
+					}
+				}
+				continue
+			}
 			if cd.Op != token.EQL && cd.Op != token.NEQ {
 				continue
 			}
@@ -884,9 +902,41 @@ func (m *Model) usesURLMode(fn *ssa.Function) bool {
 			if v, ok := ins.(ssa.Value); ok && isURLModeGet(v) {
 				found = true
 			}
+			if c, ok := ins.(*ssa.Call); ok && m.modePredicate(c.Common().StaticCallee()) != 0 {
+				found = true
+			}
 		}
 	}
 	return found
+}
+
+// modePredicate: h is a package function whose only result says whether the parsed URL's mode
+// parameter is "memory" (+1) or is not (-1); 0 otherwise.
+func (m *Model) modePredicate(h *ssa.Function) int {
+	if h == nil || !m.inPkg(h) || h.Blocks == nil || h.Signature.Results().Len() != 1 {
+		return 0
+	}
+	rets := returnsOf(h)
+	if len(rets) != 1 {
+		return 0
+	}
+	bo, ok := stripConv(rets[0].Results[0]).(*ssa.BinOp)
+	if !ok || (bo.Op != token.EQL && bo.Op != token.NEQ) {
+		return 0
+	}
+	var other ssa.Value
+	if s, ok := constString(bo.X); ok && s == "memory" {
+		other = bo.Y
+	} else if s, ok := constString(bo.Y); ok && s == "memory" {
+		other = bo.X
+	}
+	if other == nil || !isURLModeGet(other) {
+		return 0
+	}
+	if bo.Op == token.EQL {
+		return 1
+	}
+	return -1
 }
 
 // ---------------------------------------------------------------- R-KEEP-NEEDS-ROW
@@ -1408,7 +1458,6 @@ func (m *Model) ruleERRDROPPED(r *Results) {
 		r.info(rule, "instances", "-", "no error value is only compared with nil")
 	}
 }
-
 
 // ---------------------------------------------------------------- R-NIL-ROW
 
